@@ -110,6 +110,50 @@ def triangle(prog, rep):
                 if table.get(pt[0], u) != u:
                     bad.append("%s scanlines get two different colours" % pt[0])
                 table[pt[0]] = u
+        if key == "draw_styled" and not table and all("(None / None)" in x for x in bad):
+            bad = []
+            # an iterator pipeline instead of a loop: the colour is chosen in one closure (filter_map / map) and used by
+            # another (try_for_each).  The closure that switches on the point type yields, per type, the style colour of
+            # that role; the closure that calls fill_solid takes the colour from the item it is handed.
+            fam, i_ = [f], 0
+            while i_ < len(fam):
+                fam.extend(c_ for c_ in prog.closures_of.get(fam[i_].id, []) if c_ not in fam)
+                i_ += 1
+            is_style = lambda x: strip_refs(x)[0] in ("upvar", "param") and len(strip_refs(x)) > 2 and strip_refs(x)[2] == "style"
+            c_esc = lambda t: t[0] == "call" and t[1].endswith("::effective_stroke_color") and len(t[3]) == 1 and is_style(t[3][0])
+            c_fill = lambda t: t[0] == "field" and t[2] == field_index(prog, PS, "fill_color") and is_style(t[1])
+            item_fed = False
+            for c_ in fam[1:]:
+                try:
+                    cs = P_.of(c_)
+                except Unsupported:
+                    continue
+                for sm in cs:
+                    pt = point_type(sm.facts)
+                    roles = set()
+                    if sm.ret is not None:
+                        for n_ in walk(sm.ret):
+                            if isinstance(n_, tuple) and n_ and c_esc(n_):
+                                roles.add("stroke")
+                            elif isinstance(n_, tuple) and n_ and c_fill(strip_refs(n_)):
+                                roles.add("fill")
+                    for e_ in sm.calls():
+                        if e_[1][1].split("::")[-1] == "fill_solid" and len(e_[1][3]) == 3:
+                            col = strip_refs(e_[1][3][2])
+                            while col[0] in ("field", "payload"):
+                                col = strip_refs(col[1])
+                            item_fed = item_fed or (col[0] == "param" and col[1] >= 2)
+                    if pt is None and roles and not any(fct[0] == "variant" for fct in sm.facts):
+                        continue
+                    for u in roles:
+                        if pt is None or len(pt) != 1:
+                            bad.append("a colour is chosen without an established point type (%s / %s)" % (pt, u))
+                            continue
+                        if table.get(pt[0], u) != u:
+                            bad.append("%s scanlines get two different colours" % pt[0])
+                        table[pt[0]] = u
+            if not item_fed:
+                bad.append("no closure of the pipeline fills with the colour of the item it is handed")
         rep.check(table == {"Stroke": "stroke", "Fill": "fill"} and not bad, "R01.1", "triangle:colour-by-type:" + key,
                   "scanlines of type Stroke must get the (effective) stroke colour and Fill the fill colour in %s; found %s %s" % (key, table, "; ".join(sorted(set(bad))[:2])), at=f.span, fn=f.path, detail=table)
     # stored colours
